@@ -175,4 +175,17 @@ theorem skel_ProviderData_LoginURLParams_ok : skel_ProviderData_LoginURLParams =
   "params.Del",
   "return params"] : List String) := rfl
 
+theorem flags_cookie_ok : flags_cookie = ([
+  "Duration cookie-csrf-expire = time.Duration(15) * time.Minute",
+  "Bool cookie-csrf-per-request = false",
+  "StringSlice cookie-domain = []string{}",
+  "Duration cookie-expire = time.Duration(168) * time.Hour",
+  "Bool cookie-httponly = true",
+  "String cookie-name = \"_oauth2_proxy\"",
+  "String cookie-path = \"/\"",
+  "Duration cookie-refresh = time.Duration(0)",
+  "String cookie-samesite = \"\"",
+  "String cookie-secret = \"\"",
+  "Bool cookie-secure = true"] : List String) := rfl
+
 end O2P.Expect.C03
